@@ -380,6 +380,20 @@ pub mod c09_qs {
                 ));
             }
         }
+        // C09-JSON-F64 (fixed: serde_json/float_roundtrip): epsilons whose printed form serde_json's default float
+        // parser returned one ULP off (12% of uniformly drawn epsilons in (0, 20) were affected)
+        for e in [
+            15.220688432552539f64, 10.369643678843481, 0.9295340685764947, 18.618809553141574, 0.41753436935513477,
+            0.030709448081447266, 0.46591316715205955, -9301983688401.117, -8.911419754316819e-13,
+        ] {
+            cfgs.push(format!("malicious-hybrid Fp32BitPrime 1000 5 1 {e} false"));
+        }
+        for i in 0..(if thorough { 2000 } else { 200 }) {
+            // realistic range: uniform in (0, 20) / (0, 1), full 53-bit mantissas
+            let u = (rng.next_u64() >> 11) as f64 / (1u64 << 53) as f64;
+            let e = if i % 2 == 0 { u * 20.0 } else { u };
+            cfgs.push(format!("malicious-hybrid Fp32BitPrime {} 255 1 {e} {}", 1 + rng.below(1_000_000_000), rng.bool()));
+        }
         for c in &cfgs {
             out.push(format!("c09.query rt {c}"));
             out.push(format!("c09.query str {c}"));
